@@ -41,7 +41,8 @@ impl<'a> VersionChunkIter<'a> {
         };
 
         let zeros = source.chars().take_while(|c| *c == '0').count();
-        let value = source.parse::<usize>().ok()?;
+        // A digit run too large for `usize` saturates; such chunks are ordered by their digits.
+        let value = source.parse::<usize>().unwrap_or(usize::MAX);
 
         Some(VersionChunk::Number {
             value,
@@ -162,14 +163,19 @@ pub(crate) fn version_sort(a: &str, b: &str) -> std::cmp::Ordering {
                     VersionChunk::Number {
                         value: va,
                         zeros: lza,
-                        ..
+                        source: sa,
                     },
                     VersionChunk::Number {
                         value: vb,
                         zeros: lzb,
-                        ..
+                        source: sb,
                     },
-                ) => match va.cmp(&vb) {
+                ) => match va
+                    .cmp(&vb)
+                    // Equal values have equal significant digits unless both saturated `usize`.
+                    .then_with(|| (sa.len() - lza).cmp(&(sb.len() - lzb)))
+                    .then_with(|| sa[lza..].cmp(&sb[lzb..]))
+                {
                     std::cmp::Ordering::Equal => {
                         if lza == lzb {
                             continue;
